@@ -445,6 +445,67 @@ def _run_compound(case):
             'model_line': None}
 
 
+def _navigate_check(model, schema, orc, fail, step):
+    cname = lambda k: schema['classes'][k]['name']
+    keys = {}
+    for a in schema['assocs']:
+        for key in ((a['tgt'], a['src'], a['rel'], a['tphrase']), (a['src'], a['tgt'], a['rel'], a['sphrase'])):
+            keys[key] = keys.get(key, 0) + 1
+
+    def nav(x, k2, rel, ph):
+        res = list(mc._xtuml.navigate_many(model.insts[x]).nav(cname(k2), rel, ph)())
+        out = []
+        for r in res:
+            try:
+                out.append(model.idx(r))
+            except Exception:
+                out.append('not-an-instance:%r' % (r,))
+        return out
+    live = [i for i in range(len(orc.kinds)) if orc.live[i]]
+    for ai, a in enumerate(schema['assocs']):
+        for (frm, to, ph, pick) in ((a['tgt'], a['src'], a['tphrase'], lambda x: [y for (xx, y) in orc.pairs[ai] if xx == x]),
+                                    (a['src'], a['tgt'], a['sphrase'], lambda y: [x for (x, yy) in orc.pairs[ai] if yy == y])):
+            if keys[(frm, to, a['rel'], ph)] != 1:
+                continue            # two associations under one (kinds, number, phrase) key: which one answers is not stated
+            for x in live:
+                if orc.kinds[x] != frm:
+                    continue
+                try:
+                    got = nav(x, to, a['rel'], ph)
+                except Exception as e:
+                    fail('navigate-raises', 'navigate_many(%d).%s[%s.%r] raised %s: %s' % (x, cname(to), a['rel'], ph, type(e).__name__, e), step)
+                    return
+                wantp = pick(x)
+                if sorted(map(str, got)) != sorted(map(str, wantp)) or any(not isinstance(g, int) or not orc.live[g] for g in got):
+                    fail('navigate-differs', 'navigate_many(%d).%s[%s.%r] reaches %r, the relational reading gives %r'
+                         % (x, cname(to), a['rel'], ph, got, sorted(wantp)), step)
+                    return
+    # across an association class in ONE step: a1, a2 formalised in the same link class under one number
+    for i1, a1 in enumerate(schema['assocs']):
+        for i2, a2 in enumerate(schema['assocs']):
+            if i1 == i2 or a1['rel'] != a2['rel'] or a1['src'] != a2['src'] or a1['tgt'] == a2['tgt'] or a1['src'] in (a1['tgt'], a2['tgt']):
+                continue
+            if a1['tphrase'] != a2['tphrase'] or (a1['tgt'], a2['tgt'], a1['rel'], a1['tphrase']) in keys:
+                continue
+            for x in live:
+                if orc.kinds[x] != a1['tgt']:
+                    continue
+                wantp = []
+                for (xx, l) in orc.pairs[i1]:
+                    if xx == x:
+                        wantp += [y for (y, ll) in orc.pairs[i2] if ll == l and y not in wantp]
+                try:
+                    got = nav(x, a2['tgt'], a1['rel'], a1['tphrase'])
+                except Exception as e:
+                    fail('navigate-raises', 'navigate_many(%d).%s[%s] across the association class raised %s: %s'
+                         % (x, cname(a2['tgt']), a1['rel'], type(e).__name__, e), step)
+                    return
+                if sorted(map(str, got)) != sorted(map(str, wantp)) or any(not isinstance(g, int) or not orc.live[g] for g in got):
+                    fail('navigate-differs', 'navigate_many(%d).%s[%s] across the association class reaches %r, the relational '
+                         'reading gives %r' % (x, cname(a2['tgt']), a1['rel'], got, sorted(wantp)), step)
+                    return
+
+
 def run_impl(case):
     if case.get('fam') == 'compound':
         return _run_compound(case)
@@ -558,6 +619,11 @@ def run_impl(case):
             if s_pairs != set(orc.pairs[ai]) and str(got) == want:
                 fail('links-differ', 'association %d holds %s, the relational reading gives %s' % (
                     ai, sorted(s_pairs), sorted(orc.pairs[ai])), step)
+        # the property's observation point: xtuml.navigate_many from both ends of every association (and across an
+        # association class in one step) reaches exactly the partners of the relational reading, all of them live instances;
+        # done at the end of a history and after every fourth operation (as sets: order is C09's subject)
+        if str(got) == want and (step == len(case['ops']) - 1 or step % 4 == 3):
+            _navigate_check(model, schema, orc, fail, step)
         # no instance keeps a value of its own under a referential attribute (it would be read under other spellings of
         # the name and by where_eq, beside the linked identifying value)
         for (i, key, v) in model.ref_copies():
